@@ -1,7 +1,11 @@
-(* C04 - property theorems (statements only). *)
+(* C04 - property theorems.  Statements only: each is closed by [exact] of a lemma from
+   Proofs/C04.v, followed by Print Assumptions. *)
 From VM Require Import Prelude.MachInt Prelude.Outcome Impl.VolMem Spec.C04 Suite.C04 Proofs.C04.
 
-Theorem C04_takeN_is_firstn : forall l n, takeN n l = firstn (N.to_nat n) l.
-Proof. exact takeN_firstn. Qed.
+(* the implementation model satisfies the executable spec checker on every well-formed case:
+   any container kind, build mode, base address, margins, container size, initial contents and
+   any history of operations (unbounded length), by induction on the history *)
+Theorem C04_model_ok : forall c, wf_case c = true -> ok_C04 c (run_C04 c) = true.
+Proof. exact C04_model_ok_lemma. Qed.
 
-Print Assumptions C04_takeN_is_firstn.
+Print Assumptions C04_model_ok.
